@@ -108,14 +108,23 @@ func expect(sc *scenario) (want string, signer int) {
 		"sig-empty", "sig-nil", "sig-garbage", "sig-truncate", "sig-append":
 		return "fail", 0
 	case "resign-other":
+		// the advertisement's envelope now comes from key k: every entry must be proper
+		// with respect to the new signer (the main provider's entry sealed by k)
 		k := m.Index % len(pool.Ids)
-		if !hasEps {
-			return "ok", k
+		for _, e := range sc.Eps {
+			sealer := e.Sealer
+			if sealer < 0 {
+				sealer = properSealer(sc, e)
+			}
+			want := e.Named
+			if e.Named == sc.Provider {
+				want = k
+			}
+			if sealer != want {
+				return "fail", 0
+			}
 		}
-		if k != sc.Signer && mainListed(sc) {
-			return "fail", 0 // the main provider's entry is sealed by the old signer
-		}
-		return "any", 0
+		return "ok", k
 	}
 	return "any", 0 // ep-dup, ext-remove, shift, ep-sig-as-ad-sig, nil-entries
 }
@@ -193,6 +202,10 @@ func (r *run) check(sc *scenario, emit bool) string {
 		r.c.Eval()
 		r.c.Count("verify:" + obs.Kind)
 		r.c.Count("mut:" + sc.Mut.Kind)
+		switch sc.Mut.Kind {
+		case "ep-sig-as-ad-sig", "shift", "ext-remove", "nil-entries", "ep-dup":
+			r.c.Count("outside-the-claim:" + sc.Mut.Kind + ":" + obs.Kind)
+		}
 		// equal presentations with equal outcomes are one model evaluation
 		if term := coqVerifyCase(b.ad, obs); !r.seen[term] {
 			r.seen[term] = true
